@@ -475,7 +475,7 @@ var c10Corpus = []string{
 	`[\w-[\d]]`, `[a-[b]]`, `[a-c-[b]d]`, `[a-[b]d]`, `[a-[b]c-d]`, `[a-[b]`, `[z-a]`, `[a-\d]`, `[\d-a]`, `[a`, `[`, `[^`, `[a-`, `[\`, `[\q]`, `[\x4]`, `[\p{L}]`, `[\P{Lu}\d]`, `[\pL]`, `[\p{Foo}]`, `[\p{L]`, `[\p]`, `[a-\p{L}]`, `[[:alpha:]]`, `[[:^digit:]x]`, `[[:digit]x]`, `[[:foo]x]`, `[a[:digit]`, `[[:^alpha]]`, `[[:digit:`, `[[:digit:x]`, `[[:]`, `[[::]]`, `[a-[:digit:]]`,
 	`[[:foo:]]`, `[[:alpha:]`, `[[:alpha:x]`, `[[a]]`, `[a[:b]`, `[\x00-\x60b-\x{10FFFF}]`, `[\x00-\x{10FFFF}]`, `[\x01-\x{10FFFF}]`, `[\x00-\x{10FFFE}]`, `[\x00-a-[a]]`, `[a][a]`, `[ab][ab][ab]`, `[ab][ab]*`, `[ab]*[ab]`, `[ab]+[ab]*`, `[ab]{2}[ab]{3,}`,
 	`[^a][^a]`, `[^a]*[^a]`, `.*.`, `..`, `\d\d`, `\d\d+`, `\d+\d`, `aa*`, `a*a`, `a+a+`, `a*aab`, `a*ab`, `a+b`, `a?aa`, `a{2}a`, `aa{2}`, `a*?a`, `a+?ab`, `(?i)k`, `(?i)ab`, `(?i)a1`, `(?i)12`, `(?i)[k]`, `(?i)σ`, `(?i)\p{Lu}`, `(?i)[\p{Ll}x]`,
-	`\p{L}`, `\P{L}`, `\pL`, `\pZ`, `\p{Greek}`, `\p{IsGreek}`, `\p{Foo}`, `\p{`, `\p{L`, `\p`, `\pX`, `\P`, `\p{Lu}\p{Lu}`, `\p{Lowercase_Letter}`,
+	`\p{L}`, `\P{L}`, `\pL`, `\pZ`, `\p{Greek}`, `\p{IsGreek}`, `\p{Foo}`, `\p{`, `\p{L`, `\p`, `\pX`, `\P`, `\p{Lu}\p{Lu}`, `\p{Lowercase_Letter}`, `\p{wb}`, `\p{Word_Break}`, `[\p{sb}]`, `\P{gcb}x`, `\p{wb=ALetter}`, `\p{Word_Break=Numeric}+`, `\p{emoji}`, `\p{Math}`, `\p{sb=Lower}`, `\p{Sentence_Break}`,
 	// escapes (the ParseLit chain)
 	`\a\e\f\n\r\t\v`, `\x41B\x{43}\103\cD`, `\0`, `\08`, `\400`, `\x4`, `\x{}`, `\x{110000}`, `\x{41`, `\u004`, `\c`, `\c!`, `\q`, `\`, `a\`, `\.\*\+\?\(\)\[\]\{\}\|\^\$\#\ `, `\x{D800}{2}`, `\x{D800}{2}?`, `(?>\x{DC00}{3}?)`,
 	// conditionals and balancing groups
